@@ -3,6 +3,14 @@
 // multisets × header-declared thresholds × aggregate signatures × round index
 // × proposer credentials) over real-crypto fixtures; every forged header is
 // given to the real verifier and to an independent quorum calculator.
+//
+// Two further dimensions (lookback.go, history.go): headers that are honest
+// only under OTHER look-back headers than the protocol's (every look-back
+// header of the fixture commits to a different validator set and seed; all
+// entry points including header batches that carry their own look-back
+// headers), and the verifier's history (every short sequence of verifications
+// of headers that re-use each other's votes, on one Server instance: the
+// verdict must be the stateless one).
 package c01
 
 import (
@@ -312,16 +320,21 @@ func (x *ctx) offer(head string, parts []string, s Spec, seats uint32, detail st
 	x.ws.best[sig] = &witness{rank: rank, head: head, parts: parts, v: mc.Violation{Sig: sig, Config: x.c.Name, Input: s, Detail: detail}}
 }
 
-// offerRaw is offer for the dimensions whose input is not a Spec (look-back, history): rank orders the witnesses
-// of one signature (smallest kept).
-func (x *ctx) offerRaw(sig, head string, parts []string, rank string, v mc.Violation) {
+// offerRaw is offer for the dimensions whose input is not a Spec (look-back, history).  group is the
+// de-duplication key ("" = the signature itself): one witness — the one with the smallest rank — is kept per group
+// and ITS signature is reported, so a defect that many value vectors expose (some only through coincidences of
+// seat counts) is reported once, under the description of its simplest witness.
+func (x *ctx) offerRaw(group, sig, head string, parts []string, rank string, v mc.Violation) {
 	v.Sig = sig
+	if group == "" {
+		group = sig
+	}
 	x.ws.mu.Lock()
 	defer x.ws.mu.Unlock()
-	if w, ok := x.ws.best[sig]; ok && w.rank <= rank {
+	if w, ok := x.ws.best[group]; ok && w.rank <= rank {
 		return
 	}
-	x.ws.best[sig] = &witness{rank: rank, head: head, parts: parts, v: v}
+	x.ws.best[group] = &witness{rank: rank, head: head, parts: parts, v: v}
 }
 
 // flush reports one violation per signature.  A header that needs several
@@ -616,10 +629,27 @@ func (x *ctx) validate() bool {
 	scn := ""
 	if c.certPair != nil {
 		scn = "cert"
+		// the certificate seed look-back block of the scenario is itself an unmodified honest header (of round
+		// ACoCHTFrequency, built and packed like HonestHeader): the verifier must accept it on its own chain
+		pl, err := c.plant("")
+		if err != nil {
+			r.HarnessError("planted look-back block: " + err.Error())
+			return false
+		}
+		if !pl.accepted {
+			r.Count("VIOLATING_CASES_unmodified_honest_header_rejected", 1)
+			x.offerRaw(honestGroup(c), "rejected honest header (certificate round) [VerifyHeader]: the unmodified honest header of block ACoCHTFrequency (the scenario's certificate seed look-back block)", "", nil, "03|"+c.Name,
+				mc.Violation{Config: c.Name, Input: x.honestFor(scn), Detail: fmt.Sprintf("the real verifier rejects (%s) the unmodified honest header of round %d (honest proposer, every entitled member's precommit and certificate vote, packed by the real PackVotes).\n%s", pl.err, c.certPair.plant.Round, x.lbContext())})
+			return false
+		}
 	}
 	e, err := x.eval(x.honestFor(scn), true)
 	if err != nil || e.F.Skip != "" {
-		r.HarnessError(fmt.Sprintf("honest spec does not build: %v %+v", err, e))
+		skip := ""
+		if e != nil {
+			skip = e.F.Skip
+		}
+		r.HarnessError(fmt.Sprintf("config %s round %d: honest spec does not build: %v %s", c.Name, c.Round, err, skip))
 		return false
 	}
 	if !e.O.Accept {
@@ -653,7 +683,7 @@ func (x *ctx) validate() bool {
 			errs = append(errs, p.Path+": "+p.Err+p.Panic)
 		}
 		r.Count("VIOLATING_CASES_unmodified_honest_header_rejected", 1)
-		x.offerRaw("rejected honest header "+pathGroup(names)+": the unmodified header of the honest proposer with every entitled member's precommit", "", nil, "00|"+c.Name,
+		x.offerRaw(honestGroup(c), "rejected honest header"+certTag(c)+" "+pathGroup(names)+": the unmodified header of the honest proposer with every entitled member's precommit", "", nil, "01|"+c.Name,
 			mc.Violation{Config: c.Name, Input: x.honestFor(scn), Detail: fmt.Sprintf("the real verifier rejects the unmodified honest header (%s); the independent calculator accepts it (%s) and its aggregate verifies with the BLS library.\n%s\n%s",
 				strings.Join(errs, "; "), e.O, x.context(), x.lbContext())})
 		return false
@@ -710,7 +740,7 @@ func (x *ctx) exploreBoundary() {
 func Run(r *mc.Run) {
 	Quiet()
 	r.Level = "exploration"
-	r.Rule = "every forged header is a value vector over the dimensions (vote subset of the entitled members; one vote mutation: duplicate ×2/×3, replayed credential of another round index/step/round, signature over another hash, weight +1/×2/2^32-1/0 per target voter, or a non-member vote: out-of-range index/house/offline/zero-stake; header-declared ValidatorThreshold, ProposerThreshold, CertValThreshold ∈ {0,1,10,protocol,×2,2^64-1} with credentials left honest or recomputed under the declared value; aggregate signature ∈ {listed, distinct signers, one dropped, other payload, infinity, empty, undecodable, non-member's}; UconValidators.RoundIndex ∈ {same, other with replayed votes, other with re-votes}; proposer ∈ {honest, j=0, wrong priority, seats+1, non-member, house, offline, proof of another index}); explored per fixture: the full product (subset × ValidatorThreshold × aggregate) + the full product of every pair of dimensions, others honest [+ three triples in thorough]; certificate-round scenario: full product (certificate subset × CertValThreshold declared by the planted look-back header × certificate aggregate) + (precommit subset × certificate subset); each header is built with real keys and given to the real VerifyHeader(seal) (single-deviation headers also to VerifySeal and VerifySideChainHeader; certificate headers also to VerifySeal and VerifyAcHeader) and to the independent quorum calculator; non-trivial = differs from the honest header; distinct = distinct value vectors actually built"
+	r.Rule = "every forged header is a value vector over the dimensions (vote subset of the entitled members; one vote mutation: duplicate ×2/×3, replayed credential of another round index/step/round, signature over another hash, weight +1/×2/2^32-1/0 per target voter, or a non-member vote: out-of-range index/house/offline/zero-stake; header-declared ValidatorThreshold, ProposerThreshold, CertValThreshold ∈ {0,1,10,protocol,×2,2^64-1} with credentials left honest or recomputed under the declared value; aggregate signature ∈ {listed, distinct signers, one dropped, other payload, infinity, empty, undecodable, non-member's}; UconValidators.RoundIndex ∈ {same, other with replayed votes, other with re-votes}; proposer ∈ {honest, j=0, wrong priority, seats+1, non-member, house, offline, proof of another index}); explored per fixture: the full product (subset × ValidatorThreshold × aggregate) + the full product of every pair of dimensions, others honest [+ three triples in thorough]; certificate-round scenario: full product (certificate subset × CertValThreshold declared by the planted look-back header × certificate aggregate) + (precommit subset × certificate subset); each header is built with real keys and given to the real VerifyHeader(seal) (single-deviation headers also to VerifySeal and VerifySideChainHeader; certificate headers also to VerifySeal and VerifyAcHeader) and to the independent quorum calculator; non-trivial = differs from the honest header; distinct = distinct value vectors actually built || LOOK-BACK SEPARATION: in every fixture the stake look-back header, the seed look-back header, the parent, the block itself, every other header (and, certificate rounds, the certificate stake look-back header) commit to DIFFERENT validator sets (other stakes ⇒ other seat counts and other voter indexes, a record without stake in the look-back set has stake elsewhere, one validator exists in that set only) and record different seeds; a case is a header built only from honest building blocks whose proposer credential / precommits / certificate votes are drawn against (set of header X, seed of header Y): full product proposer(X∈5 × Y∈5 × {first entitled record, that set's newcomer}) × precommits(X∈5 × Y∈5) [certificate fixture: + certificate votes (X∈6 × Y∈5) × precommit X; quick tier takes the two planes of the first product there]; each header goes through VerifyHeader, VerifySeal, VerifySideChainHeader, VerifyHeaders with the header alone and VerifyHeaders with SeedLookBack / StakeLookBack / StakeLookBack+3 preceding headers in the batch over a chain that does not have them yet (look-back headers resolved from `parents`) [+ VerifyAcHeader]; exactly one vector is the honest header (must be accepted everywhere), the others are decided by the same calculator (which knows only the protocol's look-back positions) || VERIFIER HISTORY: family of headers re-using material of another header: blocks B1 and B2 of the same proposer for the same (round, index) with different transactions × vote record at the proposal's index / re-voted at the next × credentials of this/the other index × signatures+aggregate over this/the sibling's hash × at this/the other index, + the same hash with one / no precommit [certificate fixture: precommits own/sibling's × certificate signatures over own/sibling's hash × own/other index, + one / no certificate vote]; every sequence of length 1 and 2 over (family × entry points) [quick: entry points equal or one of them VerifyHeader; pairs of two rejectable headers only as the same header twice; last header on B2, the B1 half being its mirror image] and every sequence of length 3 (thorough 4) over a core sub-family × 2 entry points runs on ONE fresh Server; the last verdict of every sequence must equal the calculator's and the verdict of an instance that verified nothing else; a wrong verdict is re-run twice and its history minimised before it is reported"
 	var plan []runCfg
 	tc, mn := uint64(params.NetworkIdForTestCase), uint64(params.MainNetId)
 	if r.Quick() {
@@ -739,6 +769,8 @@ func Run(r *mc.Run) {
 	r.Assume("a signature is 'covered by the aggregate' when the aggregate is exactly a sum of listed signers' signatures over hash‖round‖index (forger's ground truth; cross-checked with real BLS verification on every accepted header)")
 	r.Assume("VRF proofs carry a fresh random nonce (real prover), so header bytes differ between runs; VRF outputs, seat counts and verdicts do not")
 	r.Assume("certificate rounds are driven at the verifier seam on sparse synthetic chains (headers only at the look-back positions)")
+	r.Assume("verifier history: a 'fresh instance' is ucon.NewVRFServer (empty BlsVerifier caches); histories are sequences of header verifications only (no mining, no message handling on the same Server)")
+	r.Assume("header batches: the headers preceding the header under verification are synthetic chain headers signed by a fixed key and verified without seal check; only the last result of a batch is judged")
 	fixtures := map[string]interface{}{}
 	ws := &witnesses{best: map[string]*witness{}}
 	defer ws.flush(r)
@@ -779,18 +811,27 @@ func Run(r *mc.Run) {
 			eps = append(eps, e.Name)
 		}
 		fx["entry_points"] = eps
+		t0 := time.Now()
+		phase := func(n string) {
+			fx["wall_s: "+n] = float64(int(time.Since(t0).Seconds()*100)) / 100
+			t0 = time.Now()
+		}
 		valid := x.validate()
+		phase("validate")
 		// look-back separation: cheap, and it names the wrong look-back header when the honest header is rejected
-		lbHere := r.Quick() || (p.ver == params.YouCurrentVersion)
+		lbHere := (r.Quick() && p.cfg != "b-") || (!r.Quick() && p.ver == params.YouCurrentVersion)
 		if lbHere && !r.Expired() {
 			x.exploreLB()
+			phase("look-back separation")
 		}
 		if !valid {
 			continue
 		}
-		histHere := p.net == tc && p.ver == params.YouCurrentVersion && (p.cert || !strings.HasPrefix(p.cfg, "b"))
+		// history: configuration c (contains a) and the certificate fixtures of a and c
+		histHere := p.net == tc && p.ver == params.YouCurrentVersion && ((!p.cert && p.cfg == "c") || (p.cert && p.cfg != "b"))
 		if histHere && !r.Expired() {
 			x.exploreHist()
+			phase("verifier history")
 		}
 		if p.cert {
 			var jobs []job
@@ -814,6 +855,7 @@ func Run(r *mc.Run) {
 		} else {
 			x.explore(r.Tier)
 		}
+		phase("forgery alphabet")
 	}
 	r.SetExtra("fixtures", fixtures)
 }
@@ -896,6 +938,17 @@ func Replay(r *mc.Run, v *mc.Violation) {
 	}
 }
 
+// honestGroup: one report per kind of fixture for "the honest header is rejected" (validate and the look-back
+// dimension both see it; the latter, which goes through every entry point, is preferred).
+func honestGroup(c *Config) string { return "rejected honest header" + certTag(c) }
+
+func certTag(c *Config) string {
+	if c.IsCert {
+		return " (certificate round)"
+	}
+	return ""
+}
+
 func replayCtx(r *mc.Run, net uint64, cfg string, ver uint64, cert bool) *ctx {
 	params.InitNetworkId(net)
 	var c *Config
@@ -913,9 +966,9 @@ func replayCtx(r *mc.Run, net uint64, cfg string, ver uint64, cert bool) *ctx {
 }
 
 func (x *ctx) replayReport(r *mc.Run, v *mc.Violation) {
-	for sig, w := range x.ws.best {
-		fmt.Println("signature now:", sig)
-		if sig != v.Sig {
+	for _, w := range x.ws.best {
+		fmt.Println("signature now:", w.v.Sig)
+		if w.v.Sig != v.Sig {
 			continue
 		}
 		r.Report(w.v)
